@@ -139,7 +139,7 @@ pub fn check_arbitrary<Q: QueueApi>(pairs: &[(u32, i64)], via: Via, cont: &[Op])
         return Err(viol(kind, &what, "M-ORDER", format!("deserialized queue: {}", d), vec!["C15"]));
     }
     // fully usable: a model-checked continuation
-    let mut st = State { m: Model::from_snap(&s), q, order_suspended: false, expected_leaks: 0, used_drain_or_clear: false };
+    let mut st = State { m: Model::from_snap(&s), q, order_suspended: false, expected_leaks: 0, used_drain_or_clear: false, tables_broken: false };
     continuation(&mut st, cont)?;
     Ok(true)
 }
@@ -235,7 +235,7 @@ fn finish_rt<Q2: QueueApi>(q: Q2, src: &Model, cont: &[Op]) -> Result<(), Viol> 
     if let Err(d) = ord {
         return Err(viol(Q2::KIND, "roundtrip", "M-ORDER", d, vec![]));
     }
-    let mut st = State { m, q, order_suspended: false, expected_leaks: 0, used_drain_or_clear: false };
+    let mut st = State { m, q, order_suspended: false, expected_leaks: 0, used_drain_or_clear: false, tables_broken: false };
     continuation(&mut st, cont)
 }
 
